@@ -12,7 +12,8 @@ META = dict(
          "enumerates worlds = committed block of <= 5 transactions (coinbase first; twins with the same txid and different witnesses) x "
          "witness commitment x short-id collision classes x announcements (every prefilled subset containing the coinbase; null header, empty, "
          "null prefilled tx, index overflow / out of range / last in range, duplicated tail, wrong prefilled tx, foreign short id, swapped short "
-         "ids) x mempool and extra-pool sequences x blocktxn answers (right, wrong tx, twin, reordered, too short, too long, empty) x segwit "
+         "ids, and witness malleation of the announced pieces: witness stripped independently from the prefilled coinbase, the other prefilled "
+         "transactions, the short-id basis and the blocktxn answer) x mempool and extra-pool sequences x blocktxn answers (right, wrong tx, twin, reordered, too short, too long, empty) x segwit "
          "flag, a second InitData and a second FillBlock on the same object, and proves on every row: READ_STATUS_OK only with exactly the "
          "committed list, not mutated; malformed announcements are INVALID; bad answers never give OK; the object is one-shot; honest inputs "
          "do reconstruct. Every row is replayed on the real classes with real transactions, a real witness commitment and the real "
@@ -130,7 +131,7 @@ def run(ctx):
         "blocks of <= 5 transactions over a universe of 7 (+ the empty transaction); mempool / extra sequences of bounded length (see tlc_runs)",
         "short ids are abstract: two transactions collide iff the world says so; realised by keying pool entries with the representative's wtxid "
         "(extra_txn as in blockencodings_tests.cpp, the mempool through its public index txns_randomized)",
-        "hashes are symbolic (no SHA256 collisions); the committed block has distinct txids and the coinbase first",
+        "hashes are symbolic (no SHA256 collisions); the committed block has distinct txids, the coinbase first and is itself not mutated (witness commitment with segwit active, or no witnesses at all)",
         "SAFE mode: only an accepted block that differs from the committed one is a violation; other differences are reported as divergences",
     ]
     return ctx.finish(level="model_checking", exhaustive=True,
